@@ -50,8 +50,8 @@ def observe(cx, impl=None):
         return algorithms.get_concepts(ctx)
     run(0, 'get_concepts after the caller edited an earlier result', get_concepts_again)
     run(0, 'iterconcepts', lambda: algorithms.iterconcepts(ctx))
-    run(0, 'context.lattice', lambda: [(c._extent, c._intent) for c in ctx.lattice])
-    run(1, 'context.lattice (vs dual)', lambda: [(c._extent, c._intent) for c in ctx.lattice])
+    run(0, 'context.lattice', lambda: [(util.bits_of(c.extent, cx.objects), util.bits_of(c.intent, cx.properties)) for c in ctx.lattice])
+    run(1, 'context.lattice (vs dual)', lambda: [(util.bits_of(c.extent, cx.objects), util.bits_of(c.intent, cx.properties)) for c in ctx.lattice])
     nontrivial = n >= 4
     term = f'({cx.coq()}, {n + 2}%nat, {coq(gens)})'
     return Case(term, cx.to_json(), nontrivial, subs, sig=cx.key())
